@@ -652,3 +652,13 @@ package meta
 //@ func (*Data).Unmarshal
 //@   writes_all_paths Data except ReplicaGroups(restored only if the snapshot has replica groups; absent otherwise), ExpandShardsEnable(configuration, not persisted), opsMapMu(lock), OpsMap(incremental-sync bookkeeping), OpsMapMinIndex(incremental-sync bookkeeping), OpsMapMaxIndex(incremental-sync bookkeeping), OpsToMarshalIndex(incremental-sync bookkeeping), SQLite(handle of the local file store, not catalogue state)
 
+// Pruning after a delete marks EXACTLY the index / shard whose id was given (ids inside a group need not be
+// contiguous after an expansion, so "first id not below" is not enough), and nothing of any other group.
+//@ prop C16 C14 C13
+//@ func (*Data).pruneIndexGroups$1$1
+//@   store IndexInfo.MarkDelete
+//@     requires [marks_exactly_the_named_index] val && obj.ID == id
+//@ func (*Data).pruneShardGroups$1$1
+//@   store ShardInfo.MarkDelete
+//@     requires [marks_exactly_the_named_shard] val && obj.ID == id
+
